@@ -68,6 +68,7 @@ func checkC11(c *Ctx, r *Result, tier string) {
 	acts := actionClosures(c)
 	r.Floor("R11a-action-closures", len(acts), 1)
 	c11BindBeforeParent(c, r, acts)
+	cActionThreadID(c, r, "R11g")
 	for _, act := range acts {
 		for _, fn := range withNested(act) {
 			key := c.FuncKey(fn)
